@@ -47,6 +47,7 @@ def hygiene_obligation(ctx):
     bad = []
     d = os.path.join(common.VERIF, "coq")
     files = sorted(f for f in os.listdir(d) if f.endswith(".v") and not f.startswith("cases"))
+    files += sorted(os.path.join("leaf", f) for f in os.listdir(os.path.join(d, "leaf")) if f.endswith(".v"))
     for f in files:
         src = _strip_comments(open(os.path.join(d, f), errors="replace").read())
         depth = 0
@@ -84,6 +85,91 @@ def coqchk_obligation(ctx, props_names):
     ctx.coverage["coqchk"] = "coqchk -silent -o on %s: %s" % (", ".join(props_names), "no axioms, no unsafe definitions" if ok else "FAILED")
     if not ok:
         ctx.violations.append({"kind": "coqchk", "static": True, "sig": "coqchk " + " ".join(props_names), "detail": {"output_tail": out[-1500:]}})
+
+
+LEAF_GROUPS = {
+    # group -> Go functions covered (the theorems are whatever Props_Leaf<group>.v states)
+    "Word": ["nfa.isWordByte", "lazy.isWordByte", "simd.isWordChar", "nfa.checkLookAssertion"],
+    "Case": ["nfa.isASCIILetter", "nfa.toUpperASCII", "nfa.toLowerASCII"],
+    "Step": ["meta.emptyMatchStep", "coregex.emptyMatchStep"],
+    "Line": ["meta.lineStartBefore", "meta.findLineStart"],
+    "Rune": ["nfa.runeWidth"],
+}
+
+
+def leaf_obligations(ctx, groups):
+    """Translator route: the leaf functions of `groups` are translated from /repo's CURRENT source into Gallina
+    (harness go2v -> LeafGen.v) and the theorems of coq/leaf/Leaf<group>.v + Props_Leaf<group>.v are re-checked against
+    that translation.  When a theorem no longer checks, LeafSearch.v looks for a concrete input on which the translated
+    function differs from the specification side."""
+    import hashlib
+    import shutil
+    hb = common.build_harness()
+    src = os.path.join(common.COQ, "leaf")
+    d = ctx.path("leaf")
+    os.makedirs(d, exist_ok=True)
+    gen = os.path.join(d, "LeafGen.v")
+    rc, out = common.harness(ctx, hb, "go2v", ["-repo", common.REPO, "-out", gen], timeout=300)
+    if rc != 0 or not os.path.exists(gen):
+        ctx.oblige("leaf-translation: go2v translates the leaf functions of the current source", False, out[-1500:])
+        ctx.violations.append({"kind": "leaf-translation", "static": True, "sig": "leaf-translation " + out[-200:],
+                               "detail": {"translator_output": out[-1500:],
+                                          "meaning": "a leaf function left the translated fragment (or disappeared): its theorems are no longer shown for the current code"}})
+        return
+    for f in os.listdir(src):
+        if f.endswith(".v") and f != "LeafGen.v":
+            shutil.copyfile(os.path.join(src, f), os.path.join(d, f))
+    text = open(gen).read()
+    snap = os.path.join(src, "LeafGen.v")
+    same = os.path.exists(snap) and open(snap).read() == text
+    ctx.coverage.setdefault("leaf_translation", {})["LeafGen.v"] = "sha1 %s, %s the committed snapshot" % (
+        hashlib.sha1(text.encode()).hexdigest()[:12], "identical to" if same else "DIFFERS from")
+    q = ((d, "Leaf"),)
+    rc, out = common.coqc("LeafGen.v", d, timeout=300, extra_q=q)
+    if rc != 0:
+        ctx.oblige("leaf-translation: LeafGen.v type-checks", False, out[-1500:])
+        ctx.violations.append({"kind": "leaf-translation", "static": True, "sig": "leaf-translation LeafGen.v does not type-check",
+                               "detail": {"output": out[-1500:]}})
+        return
+    failed = []
+    for g in groups:
+        rc1, out1 = common.coqc("Leaf%s.v" % g, d, timeout=600, extra_q=q)
+        rc2, out2 = (1, "") if rc1 != 0 else common.coqc("Props_Leaf%s.v" % g, d, timeout=300, extra_q=q)
+        psrc = open(os.path.join(d, "Props_Leaf%s.v" % g)).read()
+        thms = re.findall(r"^Theorem\s+([A-Za-z0-9_']+)", psrc, re.M)
+        reports = re.findall(r"(Closed under the global context|Axioms:\n(?:.+\n)+)", out2)
+        for i, t in enumerate(thms):
+            ok = rc2 == 0 and i < len(reports) and reports[i].startswith("Closed")
+            ctx.oblige("Props_Leaf%s.%s (re-checked against the translation of the current source)" % (g, t), ok, (out1 + out2)[-1200:])
+        ctx.coverage.setdefault("theorems", []).extend(thms)
+        if rc1 != 0 or rc2 != 0:
+            failed.append((g, (out1 + out2)[-1500:]))
+    ctx.coverage["leaf_translation"]["groups"] = {g: LEAF_GROUPS[g] for g in groups}
+    if not failed:
+        return
+    # failing-input search
+    rc, out = common.coqc("LeafSearch.v", d, timeout=900, extra_q=q)
+    found = {}
+    if rc == 0:
+        for m in re.finditer(r"^F_([A-Za-z0-9_]+)\s*=\s*(.*?)\n\s*:\s", out, re.S | re.M):
+            body = " ".join(m.group(2).split())
+            if body not in ("[]", "nil"):
+                found[m.group(1)] = body
+    for g, o in failed:
+        fns = [f.replace(".", "_") for f in LEAF_GROUPS[g]]
+        hit = [(f, found[f]) for f in fns if f in found]
+        if hit:
+            for f, body in hit:
+                ctx.violations.append({"kind": "leaf:" + f, "sig": "leaf %s differs from its specification on %s" % (f, body[:160]),
+                                       "detail": {"function": f.replace("_", ".", 1), "group": g,
+                                                  "inputs_where_translated_code_differs_from_specification": body[:1500],
+                                                  "how_found": "LeafSearch.v evaluated on the translation of the current source (vm_compute)",
+                                                  "theorems_no_longer_checking": "Props_Leaf%s.v" % g, "coqc_output": o[-600:]}})
+        else:
+            ctx.violations.append({"kind": "leaf-theorem:Props_Leaf" + g, "static": True,
+                                   "sig": "Props_Leaf%s no longer checks against the translated source" % g,
+                                   "detail": {"theorem_file": "coq/leaf/Leaf%s.v / Props_Leaf%s.v" % (g, g), "functions": LEAF_GROUPS[g],
+                                              "coqc_output": o, "search": "LeafSearch.v found no differing input" if rc == 0 else "LeafSearch.v did not compile"}})
 
 
 def props_obligations(ctx, props_name):
